@@ -106,6 +106,7 @@ type hop struct {
 	writes  []*wpkt
 	noCClose bool // publisher hop: the reading end is the server, it keeps draining after the client closed
 	skipComplete map[int]bool // readers whose queue-full reports could not be attributed to single writes
+	srtpDeaf bool // a reader's SRTP context was left behind by a sequence wrap (known finding): no trace replay
 }
 
 type fmtInfo struct {
@@ -366,6 +367,7 @@ type reader struct {
 	desc    *description.Session
 	lost    atomic.Int64
 	decErr  atomic.Int64
+	decMsg  atomic.Value
 	closed  atomic.Bool
 	delayNs int
 }
@@ -402,7 +404,11 @@ func (sc *scenario) newReader1(h *hop, k int, port int, transport string, rng *h
 		DisableRTCPSenderReports: true,
 		UDPReadBufferSize:        4 << 20,
 		OnPacketsLost:            func(n uint64) { rd.lost.Add(int64(n)) },
-		OnDecodeError:            func(error) { rd.decErr.Add(1) },
+		OnDecodeError: func(err error) {
+			if rd.decErr.Add(1) == 1 {
+				rd.decMsg.Store(err.Error())
+			}
+		},
 	}
 	if transport == "udp" {
 		c.Protocol = protoPtr(gortsplib.ProtocolUDP)
@@ -496,6 +502,7 @@ type runResult struct {
 	fatal   string
 	notes   []string
 	retained []*delivery
+	decodeErrs []string
 }
 
 func (sc *scenario) runPlay() *runResult {
@@ -547,6 +554,7 @@ func (sc *scenario) runPlay() *runResult {
 		rngs[k] = hx.NewRand(sc.seed*1000 + uint64(k) + 17)
 		hp.readers = append(hp.readers, &readerInfo{})
 	}
+	var drainOK atomic.Bool
 	errs := make(chan string, 64)
 	for k := 0; k < sc.nReaders; k++ {
 		k := k
@@ -571,9 +579,14 @@ func (sc *scenario) runPlay() *runResult {
 			readers[k] = rd
 			*hp.readers[k] = *rd.info
 			rmu.Unlock()
+			drained := false
 			defer func() {
 				if !rd.closed.Load() {
-					hp.log(event{kind: evCloseB, r: k})
+					mark := 0
+					if drained {
+						mark = 1 // closed after the writer had finished and deliveries had ceased
+					}
+					hp.log(event{kind: evCloseB, r: k, w: mark})
 					rd.c.Close()
 					rd.closed.Store(true)
 					hp.log(event{kind: evCloseE, r: k})
@@ -593,6 +606,7 @@ func (sc *scenario) runPlay() *runResult {
 					// stay until the writer has finished and everything has drained
 					<-writerDone
 					<-stopAll
+					drained = drainOK.Load()
 					return
 				}
 				select {
@@ -625,7 +639,7 @@ func (sc *scenario) runPlay() *runResult {
 		return stream.WritePacketRTP(desc.Medias[m], pkt)
 	}, sc.q)
 	close(writerDone)
-	waitDrain(hp, 3*time.Second)
+	drainOK.Store(waitDrain(hp, 3*time.Second))
 	close(stopAll)
 	wg.Wait()
 	close(errs)
@@ -635,11 +649,16 @@ func (sc *scenario) runPlay() *runResult {
 	if h.otherErr.Load() != 0 {
 		res.notes = append(res.notes, fmt.Sprintf("%d stream write errors other than queue-full", h.otherErr.Load()))
 	}
+	for k, rd := range readers {
+		if rd != nil && rd.info.tcp && !sc.tlsOn && rd.decErr.Load() > 0 {
+			res.decodeErrs = append(res.decodeErrs, fmt.Sprintf("reader %d (TCP): %d decode errors, first: %v", k, rd.decErr.Load(), rd.decMsg.Load()))
+		}
+	}
 	return res
 }
 
 // waitDrain waits until no delivery has been logged for a little while.
-func waitDrain(hp *hop, max time.Duration) {
+func waitDrain(hp *hop, max time.Duration) bool {
 	deadline := time.Now().Add(max)
 	last := -1
 	stable := 0
@@ -650,7 +669,7 @@ func waitDrain(hp *hop, max time.Duration) {
 		if n == last {
 			stable++
 			if stable >= 15 {
-				return
+				return true
 			}
 		} else {
 			stable = 0
@@ -658,6 +677,7 @@ func waitDrain(hp *hop, max time.Duration) {
 		}
 		time.Sleep(20 * time.Millisecond)
 	}
+	return false
 }
 
 // writeLoop emits sc.nPackets packets from one goroutine: bursts with pauses, random media/format,
@@ -760,6 +780,7 @@ func (hp *hop) oracle(sc *scenario) []failure {
 	type window struct {
 		playB, playE, stopB, stopE int // event positions; -1 = not present
 		closing                    bool
+		drained                    bool // closed only after the writer had finished and deliveries had ceased
 	}
 	wins := make([][]*window, nR)
 	evPosWb := make([]int, len(hp.writes))
@@ -793,6 +814,7 @@ func (hp *hop) oracle(sc *scenario) []failure {
 			if n := len(wins[e.r]); n > 0 && wins[e.r][n-1].stopB < 0 {
 				wins[e.r][n-1].stopB = pos
 				wins[e.r][n-1].closing = e.kind == evCloseB
+				wins[e.r][n-1].drained = e.kind == evCloseB && e.w == 1
 			}
 		case evStopE, evCloseE:
 			if n := len(wins[e.r]); n > 0 && wins[e.r][n-1].stopE < 0 {
@@ -928,11 +950,40 @@ func (hp *hop) oracle(sc *scenario) []failure {
 			}
 		}
 	}
+	// Known shape (SRTP): the rollover counter a reader got in the SETUP response is stale once the 16-bit
+	// sequence number of that format wraps before the reader's first packet: every later packet of the
+	// format fails authentication.  Signature: secure transport, the format's sequence wrapped, and the
+	// reader got nothing of that format written at or after the wrap (while it did set the media up).
+	wrapAt := map[[2]int]int{}
+	for k, lst := range byMF {
+		for j := 1; j < len(lst); j++ {
+			if hp.writes[lst[j]].seq < hp.writes[lst[j-1]].seq {
+				wrapAt[k] = lst[j]
+				break
+			}
+		}
+	}
+	deaf := func(r int, w *wpkt) bool {
+		if sc == nil || !sc.tlsOn {
+			return false
+		}
+		wa, ok := wrapAt[[2]int{w.m, w.f}]
+		if !ok || w.idx < wa {
+			return false
+		}
+		for wi := range delivered[r] {
+			if x := hp.writes[wi]; x.m == w.m && x.f == w.f && wi >= wa {
+				return false
+			}
+		}
+		return true
+	}
 	// TCP completeness
 	for r, ri := range hp.readers {
 		if !ri.tcp || hp.skipComplete[r] {
 			continue
 		}
+		deafSeen := map[[2]int]bool{}
 		for _, win := range wins[r] {
 			if win.playE < 0 {
 				continue
@@ -944,6 +995,14 @@ func (hp *hop) oracle(sc *scenario) []failure {
 					continue
 				}
 				if evPosWb[w.idx] > win.playE && (win.stopB < 0 || evPosWe[w.idx] < win.stopB) {
+					if _, got := delivered[r][w.idx]; !got && deaf(r, w) {
+						if !deafSeen[[2]int{w.m, w.f}] {
+							deafSeen[[2]int{w.m, w.f}] = true
+							hp.srtpDeaf = true
+							add("srtp-stale-roc-after-wrap", "reader %d (TLS+SRTP) m=%d f=%d: nothing written at or after the sequence wrap (write %d) was delivered, e.g. write %d seq=%d, written after PLAY completed", r, w.m, w.f, wrapAt[[2]int{w.m, w.f}], w.idx, w.seq)
+						}
+						continue
+					}
 					sure = append(sure, w.idx)
 				}
 			}
@@ -963,8 +1022,21 @@ func (hp *hop) oracle(sc *scenario) []failure {
 					missingSeen = wi
 				}
 			}
-			if missingSeen >= 0 && win.stopB < 0 {
-				add("tcp-missing", "reader %d (TCP): write %d was never delivered although the reader kept playing and no queue-full was reported", r, missingSeen)
+			if missingSeen >= 0 && (win.stopB < 0 || win.drained) {
+				add("tcp-missing", "reader %d (TCP): write %d was never delivered although the reader kept playing until everything had drained and no queue-full was reported", r, missingSeen)
+			}
+			// a PAUSE discards at most what is queued: everything already handed to the connection precedes
+			// the PAUSE response
+			if win.stopB >= 0 && !win.closing && win.stopE >= 0 {
+				nmiss := 0
+				for _, wi := range sure {
+					if _, got := delivered[r][wi]; !got && !hp.writes[wi].hasFull(r) {
+						nmiss++
+					}
+				}
+				if nmiss > hp.q {
+					add("tcp-lost-at-pause", "reader %d (TCP): %d packets written after PLAY completed and before PAUSE began were never delivered; the queue holds %d", r, nmiss, hp.q)
+				}
 			}
 		}
 	}
@@ -1624,6 +1696,7 @@ func (sc *scenario) runRelay() *runResult {
 	var wg sync.WaitGroup
 	stopAll := make(chan struct{})
 	writerDone := make(chan struct{})
+	var drainOK atomic.Bool
 	errs := make(chan string, 64)
 	var rmu sync.Mutex
 	for k := 0; k < sc.nReaders; k++ {
@@ -1645,8 +1718,13 @@ func (sc *scenario) runRelay() *runResult {
 			rmu.Lock()
 			*hopB.readers[k] = *rd.info
 			rmu.Unlock()
+			drained := false
 			defer func() {
-				hopB.log(event{kind: evCloseB, r: k})
+				mark := 0
+				if drained {
+					mark = 1
+				}
+				hopB.log(event{kind: evCloseB, r: k, w: mark})
 				rd.c.Close()
 				hopB.log(event{kind: evCloseE, r: k})
 			}()
@@ -1661,6 +1739,7 @@ func (sc *scenario) runRelay() *runResult {
 				if cy == cycles-1 {
 					<-writerDone
 					<-stopAll
+					drained = drainOK.Load()
 					return
 				}
 				select {
@@ -1682,12 +1761,16 @@ func (sc *scenario) runRelay() *runResult {
 	sc.writeLoop(rng, hopA, nil, len(desc.Medias), func(m int, pkt *rtp.Packet) error {
 		return pub.WritePacketRTP(desc.Medias[m], pkt)
 	}, sc.q)
-	waitDrain(hopA, 3*time.Second)
+	okA := waitDrain(hopA, 3*time.Second)
 	close(writerDone)
-	waitDrain(hopB, 3*time.Second)
+	drainOK.Store(waitDrain(hopB, 3*time.Second) && okA)
 	close(stopAll)
 	wg.Wait()
-	hopA.log(event{kind: evCloseB, r: 0})
+	markA := 0
+	if okA {
+		markA = 1
+	}
+	hopA.log(event{kind: evCloseB, r: 0, w: markA})
 	pub.Close()
 	hopA.log(event{kind: evCloseE, r: 0})
 	waitDrain(hopA, 2*time.Second) // the server keeps handing on what it had buffered
@@ -1784,14 +1867,22 @@ func (sc *scenario) runConcurrent() *runResult {
 		}()
 	}
 	wg.Wait()
-	waitDrain(hp, 1500*time.Millisecond)
+	markC := 0
+	if waitDrain(hp, 3*time.Second) {
+		markC = 1
+	}
 	for k, rd := range rds {
-		hp.log(event{kind: evCloseB, r: k})
+		hp.log(event{kind: evCloseB, r: k, w: markC})
 		rd.c.Close()
 		hp.log(event{kind: evCloseE, r: k})
 	}
 	if h.otherErr.Load() != 0 {
 		res.notes = append(res.notes, "stream write errors")
+	}
+	for k, rd := range rds {
+		if rd.info.tcp && rd.decErr.Load() > 0 {
+			res.decodeErrs = append(res.decodeErrs, fmt.Sprintf("reader %d (TCP): %d decode errors, first: %v", k, rd.decErr.Load(), rd.decMsg.Load()))
+		}
 	}
 	hp.skipComplete = map[int]bool{}
 	for k := range h.unattr {
@@ -2010,6 +2101,80 @@ func (sc *scenario) runReorderRepro() *runResult {
 	return res
 }
 
+// runSRTPWrapRepro: a secure reader sets the media up, the format's sequence number wraps, then the reader
+// plays.  The rollover counter it received with the SETUP response is stale, so nothing authenticates.
+func (sc *scenario) runSRTPWrapRepro() *runResult {
+	res := &runResult{}
+	rng := hx.NewRand(sc.seed)
+	h := &handler{sessIdx: map[*gortsplib.ServerSession]int{}}
+	srv, port, err := startServer(rng, h, 64, false, true)
+	if err != nil {
+		res.fatal = "server start: " + err.Error()
+		return res
+	}
+	defer srv.Close()
+	desc := mkDesc([]int{1})
+	stream := &gortsplib.ServerStream{Server: srv, Desc: desc}
+	if err := stream.Initialize(); err != nil {
+		res.fatal = "stream init: " + err.Error()
+		return res
+	}
+	defer stream.Close()
+	h.stream = stream
+	hp := &hop{name: "stream->reader (TLS+SRTP, wrap between SETUP and PLAY)", q: 64}
+	res.hops = append(res.hops, hp)
+	st := stream.Stats()
+	medi := desc.Medias[0]
+	hp.medias = [][]fmtInfo{{{pt: medi.Formats[0].PayloadType(), ssrc: st.Medias[medi].Formats[medi.Formats[0]].LocalSSRC}}}
+	rd, err := sc.newReader(hp, 0, port, "tcp", rng, true)
+	if err != nil {
+		res.fatal = "reader: " + err.Error()
+		return res
+	}
+	hp.readers = []*readerInfo{rd.info}
+	seq := uint16(65536 - 6)
+	idx := 0
+	write := func(n int) {
+		for i := 0; i < n; i++ {
+			w := &wpkt{idx: idx, m: 0, f: 0, seq: seq, ts: uint32(idx) * 3000, pt: hp.medias[0][0].pt, payload: mkPayload(rng, 200, 0, 0, idx)}
+			seq++
+			hp.mu.Lock()
+			hp.writes = append(hp.writes, w)
+			hp.events = append(hp.events, event{kind: evWb, w: idx})
+			hp.mu.Unlock()
+			var full []int
+			h.curFull = &full
+			if err := stream.WritePacketRTP(medi, &rtp.Packet{Header: rtp.Header{Version: 2, PayloadType: w.pt, SequenceNumber: w.seq, Timestamp: w.ts},
+				Payload: append([]byte(nil), w.payload...)}); err != nil {
+				w.errOther = err.Error()
+			}
+			h.curFull = nil
+			w.full = full
+			hp.log(event{kind: evWe, w: idx})
+			idx++
+		}
+	}
+	write(12) // crosses 65535 -> 0 while the reader is set up but not playing
+	hp.log(event{kind: evPlayB, r: 0})
+	if _, err := rd.c.Play(nil); err != nil {
+		res.fatal = "play: " + err.Error()
+		rd.c.Close()
+		return res
+	}
+	hp.log(event{kind: evPlayE, r: 0})
+	time.Sleep(20 * time.Millisecond)
+	write(30)
+	drained := waitDrain(hp, 2*time.Second)
+	mark := 0
+	if drained {
+		mark = 1
+	}
+	hp.log(event{kind: evCloseB, r: 0, w: mark})
+	rd.c.Close()
+	hp.log(event{kind: evCloseE, r: 0})
+	return res
+}
+
 // ---------------------------------------------------------------- driver
 
 func genScenario(rng *hx.Rand, i int, thorough bool) *scenario {
@@ -2111,6 +2276,20 @@ func main() {
 			}
 		}
 	}
+	{
+		sc := &scenario{kind: "repro-srtp", transport: []string{"tcp"}, nMedias: 1, nFormats: []int{1}, nReaders: 1, q: 64, seed: 11, maxPayload: 1440, tlsOn: true}
+		res := sc.runSRTPWrapRepro()
+		ctx.Eval()
+		ctx.Kind("corpus:srtp-wrap-repro")
+		if res.fatal != "" {
+			ctx.Failf(0, "scenario-setup-failed", sc.String(), "%s", res.fatal)
+		} else {
+			ctx.Nontrivial(sc.String())
+			for _, f := range res.hops[0].oracle(sc) {
+				ctx.Failf(0, f.class, sc.String(), "hop %s: %s", res.hops[0].name, f.detail)
+			}
+		}
+	}
 	malformed(ctx)
 
 	n := ctx.Budget(16, 400)
@@ -2162,6 +2341,9 @@ func main() {
 		for _, note := range j.res.notes {
 			ctx.Failf(j.i, "scenario-step-failed", j.sc.String(), "%s", note)
 		}
+		for _, note := range j.res.decodeErrs {
+			ctx.Failf(j.i, "tcp-decode-error", j.sc.String(), "%s", note)
+		}
 		for _, hp := range j.res.hops {
 			fails := hp.oracle(j.sc)
 			nd := 0
@@ -2183,9 +2365,11 @@ func main() {
 			}
 			ctx.Kind(fmt.Sprintf("hop:%s", hp.name))
 			var idx = j.i
-			if j.sc.kind != "concurrent" {
+			if j.sc.kind != "concurrent" && !hp.srtpDeaf {
 				line := hp.caseLine()
 				idx = ctx.Corr(line, "1")
+			} else if hp.srtpDeaf {
+				ctx.Kind("trace-not-replayed:srtp-stale-roc")
 			}
 			for _, f := range fails {
 				ctx.Failf(idx, f.class, j.sc.String(), "hop %s: %s", hp.name, f.detail)
